@@ -18,6 +18,7 @@ public:
     std::function<void(const QByteArray &)> onWrite;   // non-empty transport writes
     std::function<void()> onClose;                      // first close only
 
+    void setPeer(const QHostAddress &a) { setPeerAddress(a); }
     void queue(const QByteArray &seg) { mIn.append(seg); }
     void feed(const QByteArray &seg) { mIn.append(seg); Q_EMIT readyRead(); }
     void ack(qint64 n) { mUnacked = qMax<qint64>(0, mUnacked - n); Q_EMIT bytesWritten(n); }
